@@ -3,7 +3,7 @@
 patch="$1"; prop="$2"; tier="${3:-quick}"
 cd /verif
 git -C /repo diff --quiet || { echo "refusing: /repo has uncommitted changes"; exit 2; }
-git -C /repo apply "$patch" || { echo "patch does not apply"; exit 2; }
+git -C /repo apply "$(realpath "$patch")" || { echo "patch does not apply"; exit 2; }
 start=$(date +%s)
 ./check "$prop" --tier "$tier" > /tmp/try_seeded.out 2>&1; rc=$?
 end=$(date +%s)
